@@ -104,14 +104,38 @@ class _B:
 
 
 @st.composite
-def _block(draw, b, budget, depth, conditionals):
+def _block(draw, b, budget, depth, conditionals, force=None):
     """Adds a block to `b`; returns (entries, exits, used)."""
     kinds = ["job", "job", "chain", "fork", "dag"]
     if conditionals and budget >= 4 and depth < 2:
         kinds += ["cond", "cond"] if conditionals == "heavy" else ["cond"]
     if budget <= 1:
         kinds = ["job"]
-    kind = draw(st.sampled_from(kinds))
+    kind = force if force else draw(st.sampled_from(kinds))
+    if kind == "condchain":
+        # [job] -> conditional region -> [more blocks]: the shape conditional-heavy checks need
+        entries = exits = None
+        used = 0
+        if draw(st.booleans()):
+            n = b.node()
+            entries, exits, used = [n], [n], 1
+        e, x, u = draw(_block(b, max(4, budget - used), depth, conditionals, force="cond"))
+        used += u
+        if entries is None:
+            entries = e
+        else:
+            for xx in exits:
+                for ee in e:
+                    b.edge(xx, ee)
+        exits = x
+        while budget - used >= 1 and draw(st.booleans()):
+            e, x, u = draw(_block(b, budget - used, depth, conditionals))
+            used += u
+            for xx in exits:
+                for ee in e:
+                    b.edge(xx, ee)
+            exits = x
+        return entries, exits, used
     if kind == "job":
         n = b.node()
         return [n], [n], 1
@@ -203,7 +227,10 @@ def _block(draw, b, budget, depth, conditionals):
 def job_graphs(draw, name, n_profiles, max_jobs=8, conditionals=True):
     b = _B()
     budget = draw(st.integers(1, max_jobs))
-    draw(_block(b, budget, 0, conditionals))
+    if conditionals == "heavy" and draw(st.integers(0, 4)) > 0:
+        draw(_block(b, max(4, budget), 0, conditionals, force="condchain"))
+    else:
+        draw(_block(b, budget, 0, conditionals))
     # the grammar may leave several sources/sinks: that is intended (multi-source / multi-sink)
     for i, j in enumerate(b.jobs):
         j["name"] = f"{name}_j{i}"
